@@ -2,7 +2,7 @@
 # usage: try_mutant.sh <patch.diff> <contract-regex>   -- dev only: runs PVC contracts against a patched scratch worktree
 set -u
 WT=/tmp/wt/M
-git -C $WT checkout -q --detach $(git -C /repo rev-parse HEAD) 2>/dev/null; git -C $WT checkout -q -- . 
+git -C $WT reset -q --hard; git -C $WT checkout -q --detach $(git -C /repo rev-parse HEAD) 2>/dev/null; git -C $WT checkout -q -- . 
 git -C $WT apply "$1" || { echo "patch does not apply (3-way)"; git -C $WT apply --3way "$1" || exit 9; }
 cd /verif && VF_REPO=$WT .venv/bin/python -W ignore tools/dev_run.py "$2" 2>&1 | grep -v "proved': [0-9]*} {'return': 1}" | tail -${3:-12}
-git -C $WT checkout -q -- .
+git -C $WT reset -q --hard
